@@ -3,6 +3,7 @@ import PlasVerif.Proofs.MathSource
 import PlasVerif.Properties.C04
 import PlasVerif.Properties.C07
 import PlasVerif.Model.NoCharsub
+import PlasVerif.Generated.NoCharsub
 /-!
 # C11 — Verbatim text and mathematics pass through character-for-character
 
@@ -240,6 +241,13 @@ theorem no_charsub_in_verbatim_or_math (cs : Bool) :
   intro ref content
   rw [verbatimNode, PlasVerif.Properties.C07.charsubs_never_in_nosub cs _ _ _ rfl]
   simp [allChars, nosubItem, allCharsL_charToks]
+
+/-- The hypothesis `nosub = true` of the theorem above is the code's: in the table regenerated on every run by calling
+    the real `normalize(document.charsubs)` of each class, every verbatim / `\\verb` / mathematics class drops the
+    substitution list (and the ordinary classes used as a control do not). -/
+theorem nosub_classes_suppress :
+    (∀ n ∈ noSubstitutionClasses, PlasVerif.Generated.NoCharsub.nosubClasses.lookup n = some true) ∧
+    PlasVerif.Generated.NoCharsub.nosubClasses.lookup "textbf" = some false := by decide
 
 /-- end to end for the environment: scan, then document normalisation with the substitution list switched on:
     the node's text is the body, character for character -/
